@@ -7,6 +7,7 @@ import (
 	"fmt"
 	"hash/crc32"
 	"regexp"
+	"strconv"
 	"strings"
 	"time"
 
@@ -49,6 +50,33 @@ func tdFrames(stderr string) string {
 		return "no-td-frame"
 	}
 	return strings.Join(frames, "<")
+}
+
+var reOOMBlock = regexp.MustCompile(`cannot allocate (\d+)-byte block`)
+
+// labelFromErr names the codec that actually ran from the error text of the
+// real reader (listener modes: the harness cannot know what was detected behind
+// the obfuscation). Label for signatures only.
+func labelFromErr(text, fallback string) string {
+	for _, p := range []struct{ needle, name string }{
+		{"read abridged", "abridged"}, {"read padded intermediate", "padded"}, {"read intermediate", "intermediate"}, {"read full", "full"},
+	} {
+		if strings.Contains(text, p.needle) {
+			return p.name
+		}
+	}
+	return fallback
+}
+
+func labelFromStack(stack, fallback string) string {
+	for _, p := range []struct{ needle, name string }{
+		{"codec.readFull", "full"}, {"codec.readAbridged", "abridged"}, {"codec.readPaddedIntermediate", "padded"}, {"codec.PaddedIntermediate", "padded"}, {"codec.readIntermediate", "intermediate"},
+	} {
+		if strings.Contains(stack, p.needle) {
+			return p.name
+		}
+	}
+	return fallback
 }
 
 var reNum = regexp.MustCompile(`\[[^\]]*\]|-?\d+`)
@@ -206,7 +234,7 @@ func genC17(c *mon.Ctx) []hcase {
 				}
 				for k := 0; k < 8; k++ {
 					v := ivals[rs.IntN(len(ivals))]
-					if v > 1<<16 && v <= 1<<26 {
+					if (v > 1<<16 && v <= 1<<26) || (v > 1<<26 && k%4 != 0) {
 						v = uint32(17 + rs.IntN(1<<12))
 					}
 					picks = append(picks, v)
@@ -341,7 +369,8 @@ func runC17(c *mon.Ctx) {
 	c.Set("inputs", int64(len(cases)))
 	const batchSize = 2500
 	const deathsBeforeRecover = 24
-	deaths := 0
+	const oomBeforeSkip = 40
+	deaths, oomDeaths := 0, 0
 	perFamily := map[string]int64{}
 	maxAlloc := map[string]uint64{}
 	controlsOK := int64(0)
@@ -355,7 +384,29 @@ func runC17(c *mon.Ctx) {
 		for i := range batch {
 			inputs[i] = batch[i].encode()
 		}
-		opts := mon.BatchOpts{MemLimitMB: 2048, Timeout: 10 * time.Minute, MaxProcs: 1}
+		// Address space of the child capped at 3 GiB (MemLimitMB*4): an unbounded make()
+		// of several GiB dies at once as "fatal error: out of memory"; the largest
+		// legitimate frame needs 16 MiB. An out-of-memory death counts as a violation
+		// only if the block that could not be allocated is itself above the bound.
+		opts := mon.BatchOpts{MemLimitMB: 768, Timeout: 10 * time.Minute, MaxProcs: 1}
+		if oomDeaths >= oomBeforeSkip {
+			// dozens of inputs already killed the child by allocating GiB blocks: the
+			// remaining inputs that claim >= 64 MiB would only repeat that at one process
+			// restart each
+			kept := batch[:0:0]
+			for _, h := range batch {
+				if h.claimed >= 1<<26 {
+					c.Add("inputs_skipped_after_repeated_oom", 1)
+					continue
+				}
+				kept = append(kept, h)
+			}
+			batch = kept
+			inputs = inputs[:0]
+			for i := range batch {
+				inputs = append(inputs, batch[i].encode())
+			}
+		}
 		if deaths >= deathsBeforeRecover {
 			// enough genuine process deaths observed in this run: report further panics in-band
 			opts.Env = []string{"VERIF_RECOVER=1"}
@@ -391,8 +442,28 @@ func runC17(c *mon.Ctx) {
 				c.Add("process_deaths_observed", 1)
 				wit["stderr"] = o.Stderr
 				wit["panic"] = panicKind(o.Stderr)
+				label = labelFromStack(o.Stderr, label)
 				c.Violate("panic|"+label+"|"+tdFrames(o.Stderr), wit)
 				c.Distinct(fmt.Sprintf("%s/%s/%s/%s/panic", label, modeName[h.mode], fam, h.lclass))
+				continue
+			case o.Class == "fatal:oom":
+				c.Eval(1)
+				c.Add("process_deaths_observed", 1)
+				wit["stderr"] = o.Stderr
+				label = labelFromStack(o.Stderr, label)
+				block := uint64(0)
+				if mm := reOOMBlock.FindStringSubmatch(o.Stderr); mm != nil {
+					block, _ = strconv.ParseUint(mm[1], 10, 64)
+				}
+				if block <= allocBound {
+					// the child's address-space guard, not the library, is what failed here
+					c.Inconclusive(fmt.Sprintf("child out of memory on a %d-byte block (within the bound) at %s", block, h.String()))
+					continue
+				}
+				oomDeaths++
+				wit["block_bytes"] = block
+				c.Violate("fatal:oom|"+label, wit)
+				c.Distinct(fmt.Sprintf("%s/%s/%s/%s/oom", label, modeName[h.mode], fam, h.lclass))
 				continue
 			default: // fatal:*, signal:*, exit:*
 				c.Eval(1)
@@ -414,11 +485,16 @@ func runC17(c *mon.Ctx) {
 			}
 			if res.Panic != "" { // recover mode
 				wit["panic"] = res.Panic
+				label = labelFromStack(res.Stack, label)
 				wit["stderr"] = "panic: " + res.Panic + "\n\n" + res.Stack
 				c.Add("panics_reported_in_band", 1)
 				c.Violate("panic|"+label+"|"+tdFrames(res.Stack), wit)
 				c.Distinct(fmt.Sprintf("%s/%s/%s/%s/panic", label, modeName[h.mode], fam, h.lclass))
 				continue
+			}
+			if h.mode == mListen || h.mode == mObfListen {
+				label = labelFromErr(res.ErrText, label)
+				wit["protocol"] = label
 			}
 			key := label + "/" + modeName[h.mode]
 			if res.MaxAlloc > maxAlloc[key] {
